@@ -18,6 +18,8 @@ import NumbersModel.Drv.Merge
 import NumbersModel.Drv.Cache
 import NumbersModel.Drv.Layout
 import NumbersModel.Drv.ObjectStore
+import NumbersModel.Drv.Border
+import NumbersModel.Drv.Sizes
 
 open NumbersModel.Drv
 
@@ -45,6 +47,10 @@ def dispatch (line : String) : String :=
     | "cache" :: rest => handleCache rest
     | "layout" :: rest => handleLayout rest
     | "ostore" :: rest => handleOStore rest
+    | "border" :: rest => handleBorder rest
+    | "style" :: rest => handleStyle rest
+    | "sizes" :: rest => handleSizes rest
+    | "labels" :: rest => handleLabels rest
     | _ => none
   match r with
   | some s => s
